@@ -859,6 +859,9 @@ def r04_30(run, model):
 
 
 def run(run, model):
+    # the occurs check answers for every component of a type (a cyclic type makes the next substitution recurse for ever; shared with C03 R03.27)
+    from rules import c03 as _c03q
+    run.try_rule(_c03q.r03_27, model, "R04.31")
     mir = Mir(run.facts)
     an = run.try_rule(r04_1, model)
     run.try_rule(r04_2, model, an)
